@@ -27,6 +27,21 @@ Theorem send_before_persist_is_free : forall us l1 k m l2 u,
 Proof. exact send_before_persist_is_free_proved. Qed.
 Print Assumptions send_before_persist_is_free.
 
+(* the free-order set regenerated from node.go contains no vote, vote request, replication
+   acknowledgement or heartbeat response: exactly Replicate and Ping (thesis 10.2.1) *)
+Theorem free_order_excludes_claims : forall m,
+  is_free_order_message (m_type m) = true ->
+  is_ack m = false /\ is_grant m = false /\ is_vote_request m = false /\
+  (m_type m =? mt_HeartbeatResp) = false /\ (m_type m =? mt_RequestVoteResp) = false /\
+  (m_type m =? mt_ReplicateResp) = false.
+Proof. exact free_order_excludes_claims_proved. Qed.
+Print Assumptions free_order_excludes_claims.
+
+Theorem free_order_set : forall t,
+  is_free_order_message t = true -> t = mt_Replicate \/ t = mt_Ping.
+Proof. exact free_order_set_proved. Qed.
+Print Assumptions free_order_set.
+
 (* raft.setFastApply (after validateUpdate did not panic) returns false exactly when the update
    carries a snapshot or the committed range overlaps the range still to be saved *)
 Theorem set_fast_apply_false_iff_overlap : forall snap commit committed save,
